@@ -39,6 +39,10 @@ var verifAPICalls = []verifAPICall{
 	{"FragmentBlocks", 2, func(api *API) error { _, err := api.FragmentBlocks(context.Background(), "i", "f", "standard", 0); return err }},
 	{"RecalculateCaches", 2, func(api *API) error { return api.RecalculateCaches(context.Background()) }},
 	{"ApplySchema", 2, func(api *API) error { return api.ApplySchema(context.Background(), &Schema{}, false) }},
+	{"ApplySchema(remote)", 2, func(api *API) error { return api.ApplySchema(context.Background(), &Schema{}, true) }},
+	{"ImportRoaring(remote)", 2, func(api *API) error {
+		return api.ImportRoaring(context.Background(), "i", "f", 0, true, &ImportRoaringRequest{})
+	}},
 	{"Views", 2, func(api *API) error { _, err := api.Views(context.Background(), "i", "f"); return err }},
 	{"DeleteView", 2, func(api *API) error { return api.DeleteView(context.Background(), "i", "f", "standard") }},
 	{"IndexAttrDiff", 2, func(api *API) error { _, err := api.IndexAttrDiff(context.Background(), "i", nil); return err }},
